@@ -506,6 +506,70 @@ fn deep(ctx: &Ctx) {
     }
 }
 
+/// Deeply nested values through `serialize_pretty` with every indent 0..8 (and through `serialize`): the indentation grows
+/// with indent x depth.
+fn pretty_deep(ctx: &Ctx) {
+    let mut n = 0u64;
+    for depth in [1usize, 2, 8, 9, 16, 17, 32, 33, 64, 65, 66, 100, 200] {
+        for shape in 0..3 {
+            let mut v = if shape == 1 { JV::Str("x".into()) } else { JV::Num(1.0) };
+            for k in 0..depth {
+                v = match (shape, k % 2) {
+                    (0, _) => JV::Arr(vec![v]),
+                    (1, _) => JV::Obj(vec![("k".into(), v)]),
+                    (_, 0) => JV::Arr(vec![JV::Null, v]),
+                    _ => JV::Obj(vec![("a".into(), JV::Bool(true)), ("b".into(), v)]),
+                };
+            }
+            for indent in [None, Some(0usize), Some(1), Some(2), Some(3), Some(4), Some(5), Some(6), Some(7), Some(8)] {
+                n += 1;
+                // on a big stack: the reference evaluator recurses too
+                let v2 = v.clone();
+                let r = std::thread::Builder::new().stack_size(256 << 20).spawn(move || check_value(&v2, indent)).unwrap().join().unwrap_or_else(|_| Some(Fail::new("harness", "pretty_deep thread panicked")));
+                if let Some(f) = r {
+                    if !ctx.tolerate(&f) {
+                        ctx.violation(Fail { sig: f.sig, detail: format!("{} [value nested {} deep, indent {:?}]", f.detail, depth, indent) }, "value", json!({"value": jv_to_serde(&v), "indent": indent}));
+                    }
+                }
+            }
+        }
+    }
+    ctx.bulk_n(n, n);
+    ctx.label("value:deep x indent 0..8", n);
+    ctx.sample("value:deep", || json!({"value": "[[[…1…]]] nested 65 deep", "indent": 1}));
+}
+
+/// Every string of up to four units from a set of escape forms (high / low surrogates at both ends of their ranges, an
+/// ordinary escape, NUL, a literal, an escaped quote): valid pairs must give the scalar value, unpaired surrogates may be
+/// rejected, nothing may panic.
+fn escapes(ctx: &Ctx) {
+    const UNITS: [&str; 9] = ["\\ud800", "\\udbff", "\\udc00", "\\udfff", "\\u0041", "\\u0000", "a", "\\\"", "\\uD83D"];
+    let mut n = 0u64;
+    for len in 1..=4usize {
+        let total = UNITS.len().pow(len as u32);
+        for idx in 0..total {
+            let mut body = String::new();
+            let mut x = idx;
+            for _ in 0..len {
+                body.push_str(UNITS[x % UNITS.len()]);
+                x /= UNITS.len();
+            }
+            for text in [format!("\"{}\"", body), format!("{{\"{}\":0}}", body)] {
+                n += 1;
+                if let Some(f) = check_text(&text) {
+                    if !ctx.tolerate(&f) {
+                        ctx.violation(f, "text", json!({"text": text}));
+                    }
+                }
+            }
+        }
+    }
+    ctx.bulk_n(n, n);
+    ctx.label("escape-sequences", n);
+    ctx.exhaustive_space("JSON strings: all sequences of <=4 units over 9 escape forms (high/low surrogates, ordinary escapes, NUL, literal, escaped quote), as a value and as an object key (14 760 texts)");
+    ctx.sample("escape-sequences", || json!({"text": "\"\\udc00\\udc00\"", "expect": "rejected or accepted as unpaired surrogates, never a panic"}));
+}
+
 /// Wide documents: many containers, little depth. The depth limit is about nesting, not about how many containers a
 /// document holds, so sibling containers (empty ones in particular) must not use it up.
 fn wide(ctx: &Ctx) {
@@ -648,6 +712,8 @@ pub fn run(ctx: &Ctx) {
     enumerate_strings(ctx, &NUMSYMS, 7, "JSON numbers: all strings of length <=7 over {+,-,.,0,1,9,e,E} (2 396 745 strings)");
     deep(ctx);
     wide(ctx);
+    escapes(ctx);
+    pretty_deep(ctx);
     documents(ctx);
     values(ctx);
 }
